@@ -1224,3 +1224,69 @@ def g_r10_only_the_parser_writes(p: Project, rep: Report):
                 bad = (c, text(a))
     rep.check("G-R10", "write_config:only-USERCFG-reaches-the-file", bad is None, f"write_config() also writes {bad[1][:60]} into the user's file, computed from the option mapping `{argsname}` without going through the CONFIGURABLE filter: --password given on the command line ends up on disk" if bad else "", gloc(p, bad[0] if bad else wc0))
     rep.unit("writes_into_user_file", n)
+
+
+def j_r9_dates_given_to_the_converter_as_typed(p: Project, rep: Report):
+    """the date options reach the DateTime converter as the user typed them"""
+    rep.rule("J-R9", "the dates given on the command line reach the DateTime converter as typed: in convert_datetime the argument of the converter is args[<date option>] (or that `or None`) - no text edit (.replace / .strip / .translate / slicing / re.sub) in between: in the OFX notation '-' is also the sign of a GMT offset and '.' the decimal point of its minutes, so a clean-up that looks harmless for YYYY-mm-dd changes the instant of 20200301090000[-5:EST]")
+    fn0 = _fn(p, "convert_datetime")
+    fn = flat(p, OFXGET, fn0)
+    convs = set()
+    for st in ast.walk(fn):
+        if isinstance(st, ast.Assign) and len(st.targets) == 1 and isinstance(st.targets[0], ast.Name) and isinstance(st.value, ast.Attribute) and st.value.attr == "convert":
+            convs.add(st.targets[0].id)
+    calls = [c for c in ast.walk(fn) if isinstance(c, ast.Call) and ((isinstance(c.func, ast.Name) and c.func.id in convs) or (isinstance(c.func, ast.Attribute) and c.func.attr == "convert")) and c.args]
+    if not calls:
+        rep.note("J-R9 undecided: convert_datetime does not call a converter")
+        return
+    # nested helpers defined inside are part of the function
+    nested = {f.name: f for f in ast.walk(fn0) if isinstance(f, ast.FunctionDef) and f is not fn0}
+    EDITS = ("replace", "strip", "lstrip", "rstrip", "translate", "split", "partition", "rpartition", "upper", "lower", "removeprefix", "removesuffix", "sub", "subn", "zfill", "ljust", "rjust", "expandtabs", "join")
+    bad = None
+    for c in calls:
+        bodies = [c.args[0]]
+        for x in ast.walk(c.args[0]):
+            if isinstance(x, ast.Call) and isinstance(x.func, ast.Name) and x.func.id in nested:
+                bodies.append(nested[x.func.id])
+            elif isinstance(x, ast.Call) and isinstance(x.func, ast.Name) and x.func.id not in ("str",):
+                r = p.resolve(OFXGET, x.func.id)
+                if getattr(r, "node", None) is not None and isinstance(r.node, ast.FunctionDef):
+                    bodies.append(r.node)
+        for b in bodies:
+            for x in ast.walk(b):
+                if isinstance(x, ast.Call) and isinstance(x.func, ast.Attribute) and x.func.attr in EDITS:
+                    bad = bad or x
+                elif isinstance(x, ast.Subscript) and isinstance(x.slice, ast.Slice) and b is c.args[0]:
+                    bad = bad or x
+    rep.check("J-R9", "convert_datetime:dates-as-typed", bad is None, f"{text(bad)[:50] if bad is not None else ''} edits the text of --start / --end / --asof before the converter sees it: a '-' (or '.') that belongs to the GMT offset is rewritten too, so 20200301090000.000[-5:EST] is requested as [5:EST], ten hours off" if bad is not None else "", gloc(p, bad if bad is not None else fn0))
+
+
+def g_r11_unreachable_ofxhome_sets_nothing(p: Project, rep: Report):
+    """an OFX Home that cannot be reached is a layer that sets nothing, not an error"""
+    from .source import parent as _parent
+
+    rep.rule("G-R11", "an unreachable OFX Home is an empty layer: in ofxhome.fetch_fi_xml (private helpers inlined) every call that opens the connection (urlopen) lies inside the try whose handler turns URLError into `return None` - outside it, a connection failure propagates out of merge_config and the values the command line, the user's file and the FI database did supply are lost with it")
+    modname = "ofxtools.ofxhome"
+    if modname not in p.modules:
+        rep.note("G-R11 undecided: ofxtools.ofxhome not found")
+        return
+    fn0 = p.get_function(modname, "fetch_fi_xml").node
+    fn = flat(p, modname, fn0)
+    opens = [c for c in ast.walk(fn) if isinstance(c, ast.Call) and (dotted(c.func) or text(c.func)).split(".")[-1] == "urlopen"]
+    if not opens:
+        rep.note("G-R11 undecided: fetch_fi_xml opens no connection with urlopen")
+        return
+    handled_somewhere = any(isinstance(t, ast.Try) and any(h.type is not None and any(k in text(h.type) for k in ("URLError", "OSError", "Exception")) for h in t.handlers) for t in ast.walk(fn))
+    if not handled_somewhere:
+        rep.check("G-R11", "fetch_fi_xml:connection-failure-handled", False, "fetch_fi_xml has no handler for URLError: an unreachable OFX Home raises out of the option merge", gloc(p, fn0) if False else f"{p.module(modname).relpath}:{fn0.lineno}")
+        return
+    for i, c in enumerate(opens):
+        covered = False
+        node = c
+        while node is not None and node is not fn:
+            par = _parent(node)
+            if isinstance(par, ast.Try) and any(node is s or any(x is node for x in ast.walk(s)) for s in par.body):
+                if any(h.type is None or any(k in text(h.type) for k in ("URLError", "OSError", "Exception")) for h in par.handlers):
+                    covered = True
+            node = par
+        rep.check("G-R11", f"fetch_fi_xml:urlopen#{i}:inside-the-handling-try", covered, f"{text(c)[:50]} is evaluated outside the try that handles URLError: when OFX Home cannot be reached the lookup raises instead of setting nothing, and the settings the higher sources supplied are lost with the run" if not covered else "", f"{p.module(modname).relpath}:{c.lineno}")
